@@ -772,6 +772,10 @@ def gen_op(fam: Family, pop, rng: core.Rng, single: bool = False):
             continue
         kind = fam.kind[f]
         how = rng.choice(HOWS[kind])
+        if fam.has_subclass_keys() and how in ("iadd", "ior"):
+            # += / |= re-assert every element the field already holds as a DIRECT fact under the declaring key, also the inferred ones
+            # stored under the subclass key: facts the history does not list; use the plain forms there
+            how = "extend" if how == "iadd" else "update"
         if single:
             how = {"list": "append", "set": "add", "scalar": "set"}[kind]
         k = 1 if (kind == "scalar" or single or how in ("append", "insert0", "add")) else rng.randint(1, 3)
